@@ -221,6 +221,10 @@ func checkC17(c *Ctx) {
 	// entry point to New it is only handed on (a caller that rounds or shifts it first moves start
 	// times near the week boundary into the neighbouring week before the quantiser sees them)
 	ruleStartTimeHandedOn(c, "C17-R6", newFn)
+	// R7: the week is taken from the start time, never from the machine's clock (rule S9 of C06)
+	if gm := c.P.Func("rtcm/handler", "(*Handler).GetMessage"); gm != nil {
+		ruleWallClockFree(c, "C17-R7", []*ssa.Function{newFn, gm})
+	}
 	c.MinInstances("C17-R6", 2)
 	c.MinInstances("C17-R4", 1)
 	// R5: the week state is seeded on each constellation's own fixed-offset time scale (shared with C06-S7)
